@@ -21,9 +21,19 @@ const semicolon = ";" // From grpcinterceptors.go in onos-lib-go
 func TemporaryEvaluate(md metautils.NiceMD) error {
 	adminGroups := os.Getenv("ADMINGROUPS")
 	var match bool
+	// A request without any identity metadata comes from a deployment without authentication: nothing to evaluate
+	if md.Get("groups") == "" && md.Get("name") == "" && md.Get("preferred_username") == "" && md.Get("email") == "" {
+		return nil
+	}
 	for _, g := range strings.Split(md.Get("groups"), semicolon) {
-		if strings.Contains(adminGroups, g) {
-			match = true
+		// the caller's group must be exactly one of the configured groups: an empty group or a part of a group's
+		// name (which strings.Contains(adminGroups, g) lets through) is no membership
+		for _, adminGroup := range strings.FieldsFunc(adminGroups, func(r rune) bool { return r == ',' || r == ';' || r == ' ' }) {
+			if g != "" && g == adminGroup {
+				match = true
+			}
+		}
+		if match {
 			break
 		}
 	}
